@@ -13,8 +13,27 @@ def impl_fns():
     def gp(nr, cs, np_, mc):
         return [(int(p.start), int(p.stop)) for p in vcz.VcfZarrPartition.generate_partitions(nr, cs, np_, max_chunks=mc)]
 
+    class FakeArray:
+        """shaped like the 3-D genotype array plink.convert passes: (variants, samples, ploidy)"""
+
+        def __init__(self, nr, cs):
+            self.shape = (nr, 7, 2)
+            self.chunks = (cs, 3, 2)
+            self.ndim = 3
+
+        @property
+        def cdata_shape(self):
+            return tuple(-(-s // c) for s, c in zip(self.shape, self.chunks))
+
+        @property
+        def nchunks(self):
+            out = 1
+            for x in self.cdata_shape:
+                out *= x
+            return out
+
     def cas(nr, cs, np_, mc):
-        z = SimpleNamespace(chunks=(cs,), shape=(nr,))
+        z = FakeArray(nr, cs)
         return [(int(a), int(b)) for a, b in core.chunk_aligned_slices(z, np_, max_chunks=mc)]
 
     return {"generate_partitions": gp, "chunk_aligned_slices": cas}
